@@ -94,10 +94,13 @@ class PersistenceLandscaper(BaseEstimator, TransformerMixin):
         """
         # TODO: remove infinities
         _dgm = X[self.hom_deg]
-        if self.start is None:
-            self.start = min(_dgm, key=itemgetter(0))[0]
-        if self.stop is None:
-            self.stop = max(_dgm, key=itemgetter(1))[1]
+        # `start`/`stop` hold either the user's choice or the very object stored by a
+        # previous fit; only the latter is learned again, so that a refit depends on
+        # the new data and not on what an earlier fit has seen.
+        if self.start is None or self.start is getattr(self, "_learned_start", None):
+            self.start = self._learned_start = min(_dgm, key=itemgetter(0))[0]
+        if self.stop is None or self.stop is getattr(self, "_learned_stop", None):
+            self.stop = self._learned_stop = max(_dgm, key=itemgetter(1))[1]
         return self
 
     def transform(self, X: np.ndarray, y=None):
